@@ -12,6 +12,11 @@
 int
 main(int argc, String *argv)
 {
+	int	nerrors;
+
 	osFixCmdLine(&argc, &argv);
-	return compCmd(argc, argv);
+	nerrors = compCmd(argc, argv);
+
+	/* Only the low 8 bits of the status reach the caller: 256 errors must not read as success. */
+	return nerrors > 255 ? 255 : nerrors;
 }
